@@ -29,6 +29,7 @@ var c17Tokens = []string{
 	"a", "b", "Z", "k", "K", "i", "I", "s", "S", "0", "9", "-", "_", "+", ".", "..", "@", "@@",
 	"\"", "\\", " ", "(", ")", "<", ">", ",", ";", ":", "[", "]", "!", "#",
 	"\u0301", "\u0307", "\u030c", "\u0308", // combining marks
+	"I", "i", "\u00c5", "\u212b", "\u01c4", "\u01c5", "\u1e0b\u0323", "\u0323",
 	"\u0130", "\u0131", "\u00df", "\u1e9e", "\u03c2", "\u03c3", "\u03a3", "\u212a", "\u2126", "\u01f0", "J", "j",
 	"\uff21", "\uff41", "\uff20", "\uff0e", "\u3002", // fullwidth forms, ideographic full stop
 	"\u007f", "\u0080", "\u0081", "\u00ff", "\u0100", "\ufffd", "\U0001f600", "\u00e9", "e\u0301", "\u00fc", "u\u0308",
@@ -549,6 +550,20 @@ func c17RunFree(f c17Free) (vs []ev.V) {
 	}
 	if !Equal(s, k) {
 		vs = append(vs, ev.Vf("ForLookup:key-not-equal-to-address", "Equal(%q, ForLookup of it = %q) = false", s, k))
+	}
+	// Unicode-normalization variants of one address have one key (metamorphic: NFC vs NFD spelling)
+	if at := strings.LastIndexByte(s, '@'); at > 0 && !strings.HasPrefix(s, "\"") {
+		s1, s2 := norm.NFC.String(s[:at])+s[at:], norm.NFD.String(s[:at])+s[at:]
+		if s1 != s2 && Valid(s1) && Valid(s2) {
+			k1, err1 := ForLookup(s1)
+			k2, err2 := ForLookup(s2)
+			if err1 != nil || err2 != nil || k1 != k2 {
+				vs = append(vs, ev.Vf("ForLookup:nfc-nfd-variants-differ", "ForLookup(%q) = %q, %v but ForLookup(%q) = %q, %v (NFC and NFD spellings of one local part)", s1, k1, err1, s2, k2, err2))
+			}
+			if !Equal(s1, s2) {
+				vs = append(vs, ev.Vf("Equal:nfc-nfd-variants-differ", "Equal(%q, %q) = false (NFC and NFD spellings of one local part)", s1, s2))
+			}
+		}
 	}
 	c, err := CleanDomain(s)
 	if err != nil {
